@@ -5,6 +5,7 @@
 //   mode 1  C17: fresh render, then through one tag cache reused 3 times (the
 //           second time with a different value, the third into a stream that
 //           already holds text); value and template compared before/after;
+//           then through a copy-constructed, a copy-assigned and a moved cache;
 //           prints the fresh output, followed by ",!<n>" if anything differs
 // output: the rendered units ("-" when empty)
 #include "common.hpp"
@@ -65,6 +66,29 @@ static std::string run_case(int mode, const std::vector<vf::u64> &tmpl, const st
         if (s3.Length() != ss.Length() + 2 || s3.First()[0] != pre[0] || s3.First()[1] != pre[1] ||
             !StringUtils::IsEqual(s3.First() + 2, ss.First(), ss.Length()))
             bad |= 4;
+        // the cache copied (construction and assignment over a cache in use) and moved: a previously parsed cache
+        // is a previously parsed cache wherever it lives; the original must stay usable after having been copied
+        {
+            Array<Tags::TagBit> copy1{cache};
+            StringStream<C>     c1;
+            Template::Render((const C *)tb.p, (SizeT)tb.n, v, c1, copy1);
+            if (!(c1 == ss)) bad |= 32;
+            Array<Tags::TagBit> copy2;
+            const C             other[8] = {C('{'), C('v'), C('a'), C('r'), C(':'), C('a'), C('}'), C(0)};
+            StringStream<C>     c0;
+            Template::Render(other, SizeT(7), v, c0, copy2);
+            copy2 = cache;
+            StringStream<C> c2;
+            Template::Render((const C *)tb.p, (SizeT)tb.n, v, c2, copy2);
+            if (!(c2 == ss)) bad |= 32;
+            StringStream<C> c3;
+            Template::Render((const C *)tb.p, (SizeT)tb.n, v, c3, cache);
+            if (!(c3 == ss)) bad |= 32;
+            Array<Tags::TagBit> moved{Memory::Move(copy1)};
+            StringStream<C>     c4;
+            Template::Render((const C *)tb.p, (SizeT)tb.n, v, c4, moved);
+            if (!(c4 == ss)) bad |= 64;
+        }
         StringStream<C> after;
         v.Stringify(after);
         if (!(before == after)) bad |= 8;
